@@ -505,7 +505,7 @@ def part_graphs(chk):
     both = GRAPH_LEAVES
     if chk.quick:
         plans = [("N<=2 all kinds, leaves 7 \"s\", all variants", 2, full, both, 16, False),
-                 ("N<=3 kinds APTS, leaf \"s\", plain+registry variants", 3, ["A", "P", "T", "S"], [("lit", "s")], 64, True)]
+                 ("N<=3 all kinds, leaf \"s\", plain+registry variants", 3, full, [("lit", "s")], 64, True)]
     else:
         plans = [("N<=3 all kinds, leaves 7 \"s\", all variants", 3, full, both, 128, False),
                  ("N<=4 kinds A P1 T1 S1, leaf 7, plain+registry variants", 4, ["A", "P1", "T1", "S1"], [("int", 7)], 128, True),
